@@ -357,8 +357,15 @@ func runLifeScenario(sc *lifeScenario, schedule []lifeStep, seed int64) *lifeRun
 	for {
 		ws := c.Waiters()
 		if len(ws) == 0 {
-			// a goroutine woken through a channel may still be on its way
-			if idle < 3 && c.Parked() > 0 {
+			// a goroutine woken through a channel may still be on its way; after a cancel that is the guardian, which has the
+			// whole shutdown before it - on a loaded machine it may need more than a few milliseconds to reach its first hook
+			mu.Lock()
+			maxIdle := 3
+			if cancelled {
+				maxIdle = 250
+			}
+			mu.Unlock()
+			if idle < maxIdle && c.Parked() > 0 {
 				idle++
 				time.Sleep(2 * time.Millisecond)
 				continue
